@@ -15,7 +15,7 @@ _LEAVES = [
     "2020-01-01", "2020-01-01T10:00:00", "10:00:00", "2020-13-45", "2020-01-01T25:00:00+99:00",
     "YWJj", "YQ==", "YQ=", "YQ", "a===", "YWJj\n", "!!!!", "é", "日本", "\ud800", "a" * 300, "\x00", " 1 ", "１２",
     "127.0.0.1", "::1", "10.0.0.0/8", "1.2.3.4/8", "12345678123456781234567812345678", "12345678-1234-5678-1234-567812345678",
-    "/a/b", "[a-", "(", "A", "B", "A|B", "x y",
+    "/a/b", "[a-", "(", "A", "B", "A|B", "x y", "(" * 3000 + ")" * 3000, "[" * 500, "a{1,2}" * 400,
     {"$": "bytes", "h": ""}, {"$": "bytes", "h": "6162"}, {"$": "bytearray", "h": "00"},
     {"$": "dec", "s": "1"}, {"$": "dec", "s": "1.5"}, {"$": "dec", "s": "NaN"}, {"$": "dec", "s": "sNaN"}, {"$": "dec", "s": "Infinity"},
     {"$": "dec", "s": "1E+30"}, {"$": "frac", "s": "1/3"}, {"$": "cx", "r": "1.0", "i": "0.0"}, {"$": "cx", "r": "nan", "i": "inf"},
@@ -24,6 +24,10 @@ _LEAVES = [
     {"$": "ip", "c": "IPv4Address", "s": "1.2.3.4"}, {"$": "re", "s": "a"},
     {"$": "strsub", "s": "a"}, {"$": "strsub", "s": "1"}, {"$": "intsub", "v": 1}, {"$": "opaque"}, {"$": "range", "n": 3},
     {"$": "type", "n": "int"},
+    # class objects: they carry the methods of their instances unbound (dict.items, list.__iter__, Mapping.get ...)
+    {"$": "type", "n": "dict"}, {"$": "type", "n": "list"}, {"$": "type", "n": "str"}, {"$": "type", "n": "tuple"},
+    {"$": "type", "n": "set"}, {"$": "type", "n": "ordereddict"}, {"$": "type", "n": "mapping_abc"},
+    {"$": "type", "n": "sequence_abc"},
 ]
 
 _KEYS = ["a", "b", "c", "value", "data", "from", "from_", "id", "x1", "name", "items", "items_", "k", "", "0", 0, 1, None,
